@@ -495,7 +495,7 @@ def trace_mismatches(rej):
                      got=rej["marker"])]
     if exp is None:
         raise ToolError("could not diagnose rejected trace line: " + str(rej.get("diag_tail")))
-    base = dict(h=rej["steps"][-30:], line=rej["line"])
+    base = dict(h=rej["steps"][-30:], hfull=rej["steps"], line=rej["line"])
     if exp["kind"] == "map":
         if exp["pan"] != ev.get("pan"):
             out.append(dict(base, kind="pan", e=ev, expected=exp["pan"], got=ev.get("pan")))
@@ -696,6 +696,94 @@ def has_nonzero_host(v):
     return False
 
 
+def _host_diff_keys(exp, got, out):
+    """keys (bit tuples) at which two values of the same structure differ in the host token only"""
+    if isinstance(exp, dict) and isinstance(got, dict):
+        if "n" in exp and "h" in exp and "n" in got and exp.get("h") != got.get("h"):
+            out.add(tuple(exp["n"]))
+        for k in exp:
+            if k in got and not (k == "h" and "n" in exp):
+                _host_diff_keys(exp[k], got[k], out)
+    elif isinstance(exp, list) and isinstance(got, list) and len(exp) == len(got):
+        if len(exp) in (3, 5) and isinstance(exp[0], list) and isinstance(exp[1], str) and isinstance(got[1], str) \
+                and (len(exp) == 5 or not isinstance(exp[2], (list, dict))):
+            if exp[1] != got[1]:
+                out.add(tuple(exp[0]))
+            for a, b in zip(exp[3:], got[3:]):
+                _host_diff_keys(a, b, out)
+        else:
+            for a, b in zip(exp, got):
+                _host_diff_keys(a, b, out)
+
+
+INSERTING_OPS = {"insert", "o_insert"}
+FILLING_OPS = {"v_insert", "v_insert_with", "or_insert", "or_insert_with", "or_default", "v_default", "insert_with", "default"}
+
+
+def user_chosen_keys(history, which=None):
+    """Keys whose stored representation C18 fixes at the end of `history` (list of events): those whose entry
+    was last written by a call that passes a prefix.  Value-less nodes, and entries that TrieViewMut::set
+    created on a value-less node ("keep that node's existing prefix"), carry a prefix the property leaves open."""
+    user, stored = set(), set()          # stored: keys that hold an entry (user-chosen or created by a view's set())
+    for e in history:
+        a = e.get("a")
+        if a == "Reset":
+            user, stored = set(), set()
+            continue
+        if which is not None and e.get("m", "A") != which:
+            continue
+        n = tuple(e["p"]["n"]) if isinstance(e.get("p"), dict) and "n" in e["p"] else None
+        if a == "Insert":
+            user.add(n), stored.add(n)
+        elif a in ("Remove", "RemoveKeepTree", "ViewRemove"):
+            user.discard(n), stored.discard(n)
+        elif a == "Clear":
+            user, stored = set(), set()
+        elif a == "RemoveChildren":
+            user = {k for k in user if k[:len(n)] != n}
+            stored = {k for k in stored if k[:len(n)] != n}
+        elif a == "Retain" and not e.get("panicAt") and not e.get("pan"):
+            keep = {tuple(k) for k in e.get("keep", [])}
+            user = {k for k in user if k in keep}
+            stored = {k for k in stored if k in keep}
+        elif a == "Entry":
+            for op in e.get("ops", []):
+                if op.get("v") == -2:
+                    break                       # the closure panics: the session ends here
+                o = op.get("o")
+                if o in INSERTING_OPS or (o in FILLING_OPS and n not in stored):
+                    user.add(n), stored.add(n)  # the passed prefix is stored
+                elif o == "o_remove":
+                    user.discard(n), stored.discard(n)
+        elif a == "ViewSet":
+            # on an occupied node the prefix stays (user-chosen stays user-chosen); on a value-less node the new
+            # entry keeps the node's prefix, which the property leaves open.  (Without a logged result the call is
+            # assumed to have succeeded: errs towards "open", never towards an alarm.)
+            ret = e.get("ret")
+            if not (isinstance(ret, list) and ret and isinstance(ret[0], dict) and ret[0].get("ok") == 0):
+                stored.add(n)
+    return user
+
+
+def host_only_unspecified(mm):
+    """A host-only disagreement is binding for C18 only if some differing token belongs to an entry whose
+    representation the property fixes."""
+    keys = set()
+    _host_diff_keys(mm.get("expected"), mm.get("got"), keys)
+    if not keys:
+        return False
+    hist = list(mm.get("hfull") or mm.get("h") or [])
+    ev = mm.get("e") or {}
+    which = ev.get("m") if isinstance(ev, dict) else None
+    if isinstance(ev, dict) and ev.get("a") not in (None, "PathReplay", "Get", "Iter", "Obs"):
+        hist = hist + [ev]
+    if not all(isinstance(x, dict) for x in hist):
+        return False
+    user = user_chosen_keys(hist, which)
+    return not (keys & user)
+
+
+
 def strip_hosts(v):
     """remove every host token: objects {"n","h"} lose h; canonical trees [n,h,v,l,r] lose position 1"""
     if isinstance(v, dict):
@@ -716,7 +804,9 @@ def owners(mm):
     # a disagreement that vanishes when host bits are ignored is about the stored representation
     if kind in ("ret", "entries", "tree", "pre") and mm.get("expected") != mm.get("got") \
             and strip_hosts(mm.get("expected")) == strip_hosts(mm.get("got")):
-        return {"C18"}
+        # ... of entries whose representation the property fixes (not of value-less nodes, nor of entries that
+        # TrieViewMut::set created on a value-less node)
+        return {"C18-nonbinding"} if host_only_unspecified(mm) else {"C18"}
     if act in PAIR_OWNER:
         return pair_owners(mm)
     # a callback panicked (injected fault): whatever is wrong afterwards is C20's concern as well
@@ -749,6 +839,8 @@ def owners_plain(mm):
         except Exception:
             pass
         return {"C01"}
+    if kind == "ret" and act == "ViewSet" and '"kept": 0' in json.dumps(mm.get("got")):
+        return {"C18"}            # set() changed the prefix of the node it wrote to
     if kind == "ret":
         o = {RET_OWNER.get(act, "C01")}
         if act == "Find" and mm["e"].get("kind") == "find":
